@@ -1,4 +1,3 @@
-#![allow(unsafe_code)]
 //! compiled as a child module of core/src/input/site/reader/builder.rs (private `Project::shape` reachable)
 //! K-sitebuilder (C17): option values at and beyond their bounds, contradictory sample lists.
 #[allow(unused_imports)]
@@ -31,25 +30,7 @@ fn k_project_individuals_no_wrap() {
     kani::cover!(i > usize::MAX / 2);
 }
 
-fn stub_random_state_new() -> std::hash::RandomState {
-    unsafe { std::mem::transmute::<(u64, u64), std::hash::RandomState>((1, 2)) }
-}
-
-/// contradictory sample list (C17): every sample of population A is reassigned to B by a later entry.
-/// `number_of_populations` and `shape` must agree (ids 0 and 1 both exist) and must not panic.
-/// BOUNDED: one concrete list; hash seeds fixed (RandomState::new would call getrandom(2)).
-#[kani::proof]
-#[kani::unwind(12)]
-#[kani::stub(std::hash::RandomState::new, stub_random_state_new)]
-fn k_samplemap_contradictory_list() {
-    let map = sample::Map::from_iter([
-        ("s1", sample::Population::from(Some("A"))),
-        ("s1", sample::Population::from(Some("B"))),
-    ]);
-    assert!(map.number_of_populations() == 2, "an emptied population keeps its id");
-    let shape = map.shape();
-    assert!(shape.0.len() == 2 && shape.0[0] == 1 && shape.0[1] == 3, "shape = 1 + 2 * samples per population id");
-    kani::cover!(true);
-}
+// A concrete two-entry `sample::Map::from_iter([("s1", A), ("s1", B)])` harness (contradictory sample list, fix 7da6308)
+// was measured here and dropped: CBMC did not finish in 1200 s (IndexMap / SipHash), like every IndexMap harness before it.
 
 playback_tests!("h_site_builder");
